@@ -9,7 +9,7 @@ whether the code has that shape now:
   loop():              quitResetAtEntry / quitResetAtExit (where `quit_ = false` stands relative to the `while`),
                        whileTestsQuit, drainEachIteration, finalDrain (none | once | untilEmpty), loopingBracket
   quit():              quitStoresFirst
-  doPendingFunctors(): callingSetBeforeSwap, callingResetAfterRun, drainSwaps
+  doPendingFunctors(): callingSetBeforeSwap, callingResetAfterRun, batchDestroyedBeforeReset, drainSwaps
   queueInLoop():       appendUnderLock
   ~EventLoopThread():  dtorLocks, dtorJoinsIfStarted
   threadFunc():        publishLocks, publishNotifies, clearLocks, finishSets, finishNotifies
@@ -448,9 +448,10 @@ def _do_pending(docs, out, append_under_lock):
         raise ExtractError("%s: the `for` does not call the functors" % what)
     if any(s.tag == "lock" for s in sts[:runs[0] + 1]):
         raise ExtractError("%s: functors run with mutex_ held (not modelled)" % what)
+    is_clear = lambda x: _is_call(x, "local:" + batch, "clear") and not kids(x.node)[1:]
     _only(sts, what, lambda x: x.tag == "decl" and x.names == [batch],
           lambda x: x.tag == "set" and x.target == "callingPendingFunctors_" and x.value in (True, False),
-          lambda x: x is sts[take], lambda x: x.tag == "for" and x.range == batch, _is_lock)
+          lambda x: x is sts[take], lambda x: x.tag == "for" and x.range == batch, _is_lock, is_clear)
     if sts[take].tag == "block":
         _only(sts[take].body, what, _is_lock, lambda x: mentions(x.node, "pendingFunctors_") and mentions(x.node, batch))
     _only(sts[runs[0]].body, what, lambda x: x.tag == "invoke")
@@ -460,6 +461,22 @@ def _do_pending(docs, out, append_under_lock):
           "`EventLoop::doPendingFunctors`: `callingPendingFunctors_ = true` precedes the swap")
     _flag(out, "callingResetAfterRun", len(sf) == 1 and sf[0] > runs[0],
           "`EventLoop::doPendingFunctors`: `callingPendingFunctors_ = false` follows the `for`")
+    # where the functor OBJECTS of the batch die (and with them whatever they own: the destructor of a captured object
+    # may call queueInLoop()).  Two shapes are understood: `<batch>.clear();` once, at the top level, after the `for`
+    # (before or after the flag reset), or no such statement: the vector dies at the closing brace, after everything
+    # else.  Any other statement that could empty or replace the vector is not in the whitelist above.
+    clears = _index(sts, is_clear)
+    if len(clears) > 1:
+        raise ExtractError("%s: the batch vector is cleared more than once" % what)
+    if clears and clears[0] < runs[0]:
+        raise ExtractError("%s: the batch vector is cleared before the `for` that runs it (not modelled)" % what)
+    if any(is_clear(x) for s in sts for x in _flat([s]) if x is not s):
+        raise ExtractError("%s: the batch vector is cleared inside a nested statement (not modelled)" % what)
+    destroyed_first = bool(clears) and len(sf) == 1 and sf[0] > runs[0] and clears[0] < sf[0]
+    _flag(out, "batchDestroyedBeforeReset", destroyed_first,
+          "`EventLoop::doPendingFunctors`: the functor objects of the batch are destroyed (`functors.clear()` after the `for`) "
+          "while `callingPendingFunctors_` is still set; false: they die after the reset (a `clear()` placed after it, or "
+          "the vector's own destruction at the end of the function)")
     _flag(out, "drainSwaps", bool(swaps),
           "`EventLoop::doPendingFunctors`: the batch is taken with `swap` (the queue is left empty) under `mutex_`")
     _flag(out, "appendUnderLock", append_under_lock, "`EventLoop::queueInLoop`: `push_back` under `mutex_`, before the wake-up test")
